@@ -46,6 +46,8 @@ typedef struct
   YR_MEMORY_BLOCK blk;
   int fsz_known;
   uint64_t fsz;
+  int errors;
+  int stop;
 } HS;
 
 static void compile_cb(int level, const char* file, int line, const YR_RULE* rule, const char* msg, void* ud)
@@ -246,6 +248,19 @@ static void do_cmd(HS* s, char* line)
       yr_compiler_set_include_callback(s->compiler, include_cb, include_free, s); }
     fprintf(o, "newcompiler rc=%d\n", rc);
   }
+  else if (!strcmp(c, "newcompiler2"))
+  {
+    s->errors = 0; s->stop = 0;
+    int rc = yr_compiler_create(&s->compiler);
+    if (rc == 0) yr_compiler_set_callback(s->compiler, compile_cb, s);
+    fprintf(o, "newcompiler2 rc=%d\n", rc);
+  }
+  else if (!strcmp(c, "getrules2"))
+  {
+    int rc = s->errors ? -1 : yr_compiler_get_rules(s->compiler, &s->rules);
+    fprintf(o, "getrules2 rc=%d\n", rc);
+  }
+  else if (!strcmp(c, "force")) { do_cmd(s, p); }
   else if (!strcmp(c, "file"))
   {
     char* name = tok(&p);
@@ -259,6 +274,7 @@ static void do_cmd(HS* s, char* line)
     uint8_t* src = h_unhex(tok(&p), &len);
     int e = yr_compiler_add_string(s->compiler, (const char*) src, s->has_ns ? s->ns : NULL);
     fprintf(o, "add errors=%d\n", e);
+    s->errors += e;
     free(src);
   }
   else if (!strcmp(c, "atomq"))
@@ -301,10 +317,12 @@ static void do_cmd(HS* s, char* line)
   }
   else if (!strcmp(c, "getrules"))
   {
+    if (s->errors > 0) { fprintf(o, "getrules skipped\n"); s->stop = 1; return; }  // API contract: no get_rules after errors
     int rc = yr_compiler_get_rules(s->compiler, &s->rules);
     fprintf(o, "getrules rc=%d\n", rc);
+    if (rc != 0) s->stop = 1;
   }
-  else if (!strcmp(c, "destroycompiler")) { yr_compiler_destroy(s->compiler); s->compiler = NULL; }
+  else if (!strcmp(c, "destroycompiler")) { if (s->compiler) yr_compiler_destroy(s->compiler); s->compiler = NULL; }
   else if (!strcmp(c, "save"))
   {
     HMEM m = {0};
@@ -470,6 +488,8 @@ static void do_cmd(HS* s, char* line)
 
 typedef struct { char** lines; int n; } CASE;
 
+int __lsan_do_recoverable_leak_check(void) __attribute__((weak));
+
 static void run_case(void* arg, FILE* out)
 {
   CASE* cs = (CASE*) arg;
@@ -478,8 +498,15 @@ static void run_case(void* arg, FILE* out)
   s->want_strings = 1;
   for (int i = 0; i < cs->n; i++)
   {
+    if (s->stop && strncmp(cs->lines[i], "force ", 6) != 0) continue;   // nothing to run on without rules
     do_cmd(s, cs->lines[i]);
     fflush(out);
+  }
+  if (__lsan_do_recoverable_leak_check)
+  {
+    // everything the case created must have been destroyed by its own commands
+    int leaks = __lsan_do_recoverable_leak_check();
+    fprintf(out, "leakcheck %d\n", leaks);
   }
 }
 
